@@ -691,7 +691,12 @@ class Envelope(core_events.Consecution, typing.Generic[T]):
             # The event that is active at 'start' has to end there with
             # the matching share of its curve shape.
             self.sample_at(start)
-            parameter_0 = self.parameter_at(start)
+            # If two control points share the time 'start' (a jump), the
+            # curve in front of 'start' leads to the first of them.
+            abst_tuple = self.absolute_time_tuple
+            parameter_0 = self.value_to_parameter(
+                self._event_to_value(self[abst_tuple.index(start)])
+            )
             event_0 = self._make_event(0, parameter_0, 0)
 
             self.sample_at(end)
